@@ -72,7 +72,7 @@ Lemma await_ack rq f : is_ack f = true ->
   step rq AwaitAck f =
     match subscribe_msg rq with
     | Some m => (Streaming, [ERecv; ESend m])
-    | None => (Done (RaisedOther "TypeError"), [ERecv])
+    | None => (Done (RaisedOther SER_ERROR), [ERecv])
     end.
 Proof. intro H. apply ack_iff in H as [p H]. unfold step. rewrite H. reflexivity. Qed.
 
@@ -112,10 +112,10 @@ Qed.
    The terminal outcome is left open here (exists o). *)
 Lemma stream_coarse rq f :
   match skind_of f with
-  | SNext d => step rq Streaming f = (Streaming, ERecv :: if truthy d then [EYield d] else [])
+  | SNext d => step rq Streaming f = (Streaming, ERecv :: if nonnull d then [EYield d] else [])
   | SPing => step rq Streaming f = (Streaming, [ERecv; ESend pong_msg])
   | SPong | SAck | SIgnored => step rq Streaming f = (Streaming, [ERecv])
-  | SComplete => step rq Streaming f = (Closed, [ERecv; EClose])
+  | SComplete => step rq Streaming f = (Done Finished, [ERecv; EClose])
   | SError _ | SMalformed => exists o, step rq Streaming f = (Done o, [ERecv])
   end.
 Proof.
@@ -186,28 +186,11 @@ Proof.
   - destruct kv0; [reflexivity|discriminate].
 Qed.
 
-(* Closed (after close()), every frame: nothing can be sent any more *)
-Lemma closed_coarse rq f : exists p evs, step rq Closed f = (p, evs) /\ sent_of evs = [] /\
-  (p = Closed \/ exists o, p = Done o).
-Proof.
-  unfold step. destruct (msg_type f); eauto 8.
-  destruct (action_of t payload); eauto 8.
-  destruct (truthy d); eauto 8.
-Qed.
-
 (* ------------------------------------------------------------------------------------------ *)
 (* runs                                                                                        *)
 
 Lemma run_done rq o fs : run_from rq (Done o) fs = ([], Done o).
 Proof. induction fs as [|f r IH]; simpl; [reflexivity|]. rewrite IH. reflexivity. Qed.
-
-Lemma run_closed_silent rq fs : sent_of (fst (run_from rq Closed fs)) = [].
-Proof.
-  induction fs as [|f r IH]; simpl; [reflexivity|].
-  destruct (closed_coarse rq f) as (p & evs & E & S & [P|[o P]]); rewrite E; subst p.
-  - destruct (run_from rq Closed r) as [e q]. simpl in *. rewrite sent_of_app, S, IH. reflexivity.
-  - rewrite run_done. simpl. rewrite app_nil_r. exact S.
-Qed.
 
 Definition count_pings (fs : list frame) : nat :=
   List.length (filter (fun f => match skind_of f with SPing => true | _ => false end) fs).
@@ -220,9 +203,8 @@ Proof.
   simpl. unfold count_pings in *. pose proof (stream_coarse rq f) as C.
   destruct (skind_of f) eqn:K; simpl;
     try (rewrite C; destruct (run_from rq Streaming r) as [e q]; simpl in *; rewrite K; simpl;
-         try (destruct (truthy d)); simpl; rewrite ?IH; reflexivity).
-  - (* complete *) rewrite C. pose proof (run_closed_silent rq r) as S.
-    destruct (run_from rq Closed r) as [e q]. simpl in *. rewrite K. simpl. exact S.
+         try (destruct (nonnull d)); simpl; rewrite ?IH; reflexivity).
+  - (* complete *) rewrite C, run_done. simpl. rewrite K. reflexivity.
   - destruct C as [o C]. rewrite C, run_done. simpl. rewrite K. reflexivity.
   - destruct C as [o C]. rewrite C, run_done. simpl. rewrite K. reflexivity.
 Qed.
@@ -281,12 +263,14 @@ Proof.
 Qed.
 
 (* yields: no shape guard needed *)
-Lemma run_stream_yields rq r : g_truthy r = true -> g_stop r = true ->
+Lemma run_stream_yields rq r : g_nonnull r = true ->
   yielded_of (fst (run_from rq Streaming r)) = yielded_of (fst (spec_stream r)).
 Proof.
-  unfold g_truthy. induction r as [|f r IH]; [reflexivity|].
+  unfold g_nonnull. induction r as [|f r IH]; [reflexivity|].
   simpl. pose proof (stream_coarse rq f) as C.
-  destruct (skind_of f) eqn:K; simpl; rewrite ?K; simpl; intros T S.
+  destruct (skind_of f) eqn:K; simpl; rewrite ?K; simpl; intros T;
+    try (destruct C as [o C]; rewrite C, run_done; reflexivity);
+    try (rewrite C, run_done; reflexivity).
   - rewrite C. destruct (run_from rq Streaming r) as [e q]; destruct (spec_stream r) as [e' o'].
     simpl in *. rewrite <- IH; auto.
   - apply andb_true_iff in T as [Td T]. rewrite C, Td.
@@ -296,124 +280,60 @@ Proof.
     simpl in *. rewrite <- IH; auto.
   - rewrite C. destruct (run_from rq Streaming r) as [e q]; destruct (spec_stream r) as [e' o'].
     simpl in *. rewrite <- IH; auto.
-  - rewrite C. destruct r; [reflexivity|discriminate].
-  - destruct C as [o C]. rewrite C, run_done. reflexivity.
   - rewrite C. destruct (run_from rq Streaming r) as [e q]; destruct (spec_stream r) as [e' o'].
     simpl in *. rewrite <- IH; auto.
-  - destruct C as [o C]. rewrite C, run_done. reflexivity.
 Qed.
 
-(* the whole streaming run equals the specification under the three frame guards *)
-Lemma run_stream_conform rq r : g_shape r = true -> g_truthy r = true -> g_stop r = true ->
+(* the whole streaming run equals the specification under the two frame guards *)
+Lemma run_stream_conform rq r : forallb shape_ok (spec_prefix r) = true -> g_nonnull r = true ->
   fst (run_from rq Streaming r) = fst (spec_stream r) /\
   finish (snd (run_from rq Streaming r)) = snd (spec_stream r).
 Proof.
-  unfold g_truthy, g_shape. induction r as [|f r IH]; [split; reflexivity|].
-  simpl. intros Sh. apply andb_true_iff in Sh as [Shf Sh].
-  pose proof (stream_coarse rq f) as C.
-  destruct (skind_of f) eqn:K; simpl; rewrite ?K; simpl; intros T S.
-  - rewrite C. specialize (IH Sh T S).
+  unfold g_nonnull. induction r as [|f r IH]; [split; reflexivity|].
+  simpl. pose proof (stream_coarse rq f) as C.
+  destruct (skind_of f) eqn:K; simpl; rewrite ?K; simpl; intros Sh T;
+    apply andb_true_iff in Sh as [Shf Sh].
+  - rewrite C. specialize (IH Sh T).
     destruct (run_from rq Streaming r) as [e q]; destruct (spec_stream r) as [e' o'].
     simpl in *. destruct IH; subst; auto.
-  - apply andb_true_iff in T as [Td T]. rewrite C, Td. specialize (IH Sh T S).
+  - apply andb_true_iff in T as [Td T]. rewrite C, Td. specialize (IH Sh T).
     destruct (run_from rq Streaming r) as [e q]; destruct (spec_stream r) as [e' o'].
     simpl in *. destruct IH; subst; auto.
-  - rewrite C. specialize (IH Sh T S).
+  - rewrite C. specialize (IH Sh T).
     destruct (run_from rq Streaming r) as [e q]; destruct (spec_stream r) as [e' o'].
     simpl in *. destruct IH; subst; auto.
-  - rewrite C. specialize (IH Sh T S).
+  - rewrite C. specialize (IH Sh T).
     destruct (run_from rq Streaming r) as [e q]; destruct (spec_stream r) as [e' o'].
     simpl in *. destruct IH; subst; auto.
-  - rewrite C. destruct r; [split; reflexivity|discriminate].
+  - rewrite C, run_done. split; reflexivity.
   - rewrite (stream_error_exact rq f errs Shf K), run_done. split; reflexivity.
-  - rewrite C. specialize (IH Sh T S).
+  - rewrite C. specialize (IH Sh T).
     destruct (run_from rq Streaming r) as [e q]; destruct (spec_stream r) as [e' o'].
     simpl in *. destruct IH; subst; auto.
   - rewrite (stream_malformed_exact rq f Shf K), run_done. split; reflexivity.
 Qed.
 
 (* ------------------------------------------------------------------------------------------ *)
-(* variables: whenever json.dumps without default= succeeds it agrees with the reference        *)
-
-Section PyvInd.
-  Variable P : pyv -> Prop.
-  Hypothesis HU : P VUnset.
-  Hypothesis HJ : forall j, P (VJ j).
-  Hypothesis HM : forall b j, P (VModel b j).
-  Hypothesis HO : forall j, P (VOpaque j).
-  Hypothesis HL : forall l, Forall P l -> P (VList l).
-  Fixpoint pyv_ind' (v : pyv) : P v :=
-    match v with
-    | VUnset => HU
-    | VJ j => HJ j
-    | VModel b j => HM b j
-    | VOpaque j => HO j
-    | VList l => HL l ((fix go (l : list pyv) : Forall P l :=
-                          match l with
-                          | [] => Forall_nil P
-                          | x :: r => Forall_cons x (pyv_ind' x) (go r)
-                          end) l)
-    end.
-End PyvInd.
-
-Lemma strict_lenient v : forall j, dumps_strict v = Some j -> dumps_lenient v = Some j.
-Proof.
-  induction v as [| | | |l F] using pyv_ind'; simpl; intros j0 E; try discriminate; auto.
-  revert j0 E. induction F as [|x r Hx Hr IHr]; intros j0 E; simpl in *; [exact E|].
-  destruct (dumps_strict x) as [a|] eqn:Ex; [|discriminate].
-  rewrite (Hx a eq_refl).
-  match type of E with
-  | option_map JArr (match ?g with _ => _ end) = _ => destruct g as [b|] eqn:Eg; [|discriminate]
-  end.
-  specialize (IHr (JArr b) eq_refl).
-  match goal with
-  | |- option_map JArr (match ?g with _ => _ end) = _ => destruct g as [b'|] eqn:Eg'; [|discriminate]
-  end.
-  simpl in IHr. inversion IHr; subst. exact E.
-Qed.
-
-Lemma strict_lenient_dict d : forall vs, dumps_dict dumps_strict d = Some vs ->
-  dumps_dict dumps_lenient d = Some vs.
-Proof.
-  induction d as [|[k v] r IH]; simpl; intros vs H; [exact H|].
-  destruct (dumps_strict v) as [a|] eqn:E; [|discriminate].
-  destruct (dumps_dict dumps_strict r) as [b|]; [|discriminate].
-  rewrite (strict_lenient v a E), (IH b eq_refl). exact H.
-Qed.
-
-Lemma subscribe_msg_ref rq m : subscribe_msg rq = Some m -> subscribe_ref rq = Some m.
-Proof.
-  unfold subscribe_msg, subscribe_ref, subscribe_with.
-  destruct (r_vars rq) as [[|kv d]|]; auto.
-  destruct (dumps_dict dumps_strict (convert_dict (kv :: d))) as [vs|] eqn:E; [|discriminate].
-  rewrite (strict_lenient_dict _ _ E). auto.
-Qed.
-
-(* ------------------------------------------------------------------------------------------ *)
 (* the master statement: under the four guards the client IS the specified protocol machine     *)
 
-Definition g_all (rq : request) (fs : list frame) : bool :=
-  g_vars rq && g_shape fs && match fs with f :: r => g_truthy r && g_stop r | [] => true end.
+Definition g_all (fs : list frame) : bool :=
+  g_shape fs && match fs with f :: r => g_nonnull r | [] => true end.
 
 Definition same_obs (a b : trace) : Prop :=
   t_connect a = t_connect b /\ t_events a = t_events b /\ erase_msg (t_fin a) = erase_msg (t_fin b).
 
-Lemma conform c rq fs : g_all rq fs = true -> same_obs (run_ws c rq fs) (spec_ws c rq fs).
+Lemma conform c rq fs : g_all fs = true -> same_obs (run_ws c rq fs) (spec_ws c rq fs).
 Proof.
-  unfold g_all, same_obs, run_ws, spec_ws. intro G.
-  apply andb_true_iff in G as [G G3]. apply andb_true_iff in G as [G1 G2].
+  unfold g_all, same_obs, run_ws, spec_ws, g_shape. intro G.
   destruct fs as [|f r]; [simpl; auto|].
-  apply andb_true_iff in G3 as [GT GS].
-  unfold g_shape in G2. simpl in G2. apply andb_true_iff in G2 as [Sf Sr].
+  apply andb_true_iff in G as [G2 GT]. apply andb_true_iff in G2 as [Sf Sr].
   simpl. destruct (is_ack f) eqn:A.
   - rewrite (await_ack rq f A). unfold is_ack in A. destruct (skind_of f); try discriminate.
-    unfold g_vars in G1.
     destruct (subscribe_msg rq) as [m|] eqn:M.
-    + rewrite (subscribe_msg_ref rq m M).
-      destruct (run_stream_conform rq r Sr GT GS) as [E F].
+    + destruct (run_stream_conform rq r Sr GT) as [E F].
       destruct (run_from rq Streaming r) as [e q]; destruct (spec_stream r) as [e' o'].
       simpl in *. subst. auto.
-    + destruct (subscribe_ref rq); [discriminate|]. rewrite run_done. simpl. auto.
+    + rewrite run_done. simpl. auto.
   - destruct (await_invalid rq f Sf A) as [m E]. rewrite E, run_done.
     unfold is_ack in A. destruct (skind_of f); try discriminate; simpl; auto.
 Qed.
@@ -426,7 +346,6 @@ Proof.
   unfold step_otel, step. change (msg_type_otel f) with (msg_type f).
   destruct ph; try reflexivity; destruct (msg_type f); try reflexivity.
   - destruct t; try reflexivity. destruct (subscribe_msg rq); reflexivity.
-  - destruct (action_of t payload); reflexivity.
   - destruct (action_of t payload); reflexivity.
 Qed.
 
@@ -457,13 +376,29 @@ Lemma fin_after_prefix c rq f a r m :
   yielded_of (t_events (run_ws c rq (f :: a ++ r))) =
     yielded_of (fst (run_from rq Streaming a)) ++ yielded_of (fst (run_from rq Streaming r)) /\
   closes_of (t_events (run_ws c rq (f :: a ++ r))) =
-    closes_of (fst (run_from rq Streaming a)) + closes_of (fst (run_from rq Streaming r)).
+    closes_of (fst (run_from rq Streaming a)) + closes_of (fst (run_from rq Streaming r)) /\
+  consumed_of (t_events (run_ws c rq (f :: a ++ r))) =
+    S (consumed_of (fst (run_from rq Streaming a)) + consumed_of (fst (run_from rq Streaming r))).
 Proof.
   intros A M N. unfold run_ws. simpl. rewrite (await_ack rq f A), M.
   destruct (run_stream_app rq a r N) as (e1 & E1 & E2). rewrite E2, E1.
-  destruct (run_from rq Streaming r) as [e q]. simpl. split; [reflexivity|]. split.
+  destruct (run_from rq Streaming r) as [e q]. simpl. split; [reflexivity|]. split; [|split].
   - rewrite yielded_of_app. reflexivity.
   - unfold closes_of. simpl. rewrite filter_app, app_length. reflexivity.
+  - unfold consumed_of. simpl. rewrite filter_app, app_length. reflexivity.
+Qed.
+
+(* non-terminal frames are each consumed once *)
+Lemma nonterminal_consumed rq a :
+  forallb (fun f => negb (terminal (skind_of f))) a = true ->
+  consumed_of (fst (run_from rq Streaming a)) = List.length a.
+Proof.
+  induction a as [|f a IH]; simpl; intro H; [reflexivity|].
+  apply andb_true_iff in H as [Hf Ha]. specialize (IH Ha).
+  pose proof (stream_coarse rq f) as C.
+  destruct (skind_of f) eqn:K; simpl in Hf; try discriminate; rewrite C;
+    destruct (run_from rq Streaming a) as [e q]; simpl in *;
+    try (destruct (nonnull d)); simpl; rewrite <- IH; reflexivity.
 Qed.
 
 (* non-terminal frames never call close() *)
@@ -476,7 +411,7 @@ Proof.
   pose proof (stream_coarse rq f) as C.
   destruct (skind_of f) eqn:K; simpl in Hf; try discriminate; rewrite C;
     destruct (run_from rq Streaming a) as [e q]; simpl in *;
-    try (destruct (truthy d)); simpl; exact IH.
+    try (destruct (nonnull d)); simpl; exact IH.
 Qed.
 
 (* ... and yield exactly the truthy data of their next frames, in order *)
@@ -485,14 +420,14 @@ Definition next_data (fs : list frame) : list json :=
 
 Lemma nonterminal_yields rq a :
   forallb (fun f => negb (terminal (skind_of f))) a = true ->
-  yielded_of (fst (run_from rq Streaming a)) = filter truthy (next_data a).
+  yielded_of (fst (run_from rq Streaming a)) = filter nonnull (next_data a).
 Proof.
   induction a as [|f a IH]; simpl; intro H; [reflexivity|].
   apply andb_true_iff in H as [Hf Ha]. specialize (IH Ha).
   pose proof (stream_coarse rq f) as C. unfold next_data in *. simpl.
   destruct (skind_of f) eqn:K; simpl in Hf; try discriminate; rewrite C;
     destruct (run_from rq Streaming a) as [e q]; simpl in *;
-    try (destruct (truthy d)); simpl; rewrite ?IH; reflexivity.
+    try (destruct (nonnull d)); simpl; rewrite ?IH; reflexivity.
 Qed.
 
 Lemma spec_yields r : yielded_of (fst (spec_stream r)) = next_data (spec_prefix r).
@@ -506,11 +441,11 @@ Definition nonterminal (a : list frame) : bool :=
   forallb (fun f => negb (terminal (skind_of f))) a.
 
 Lemma yields_partial c rq f r m : is_ack f = true -> subscribe_msg rq = Some m ->
-  g_truthy r = true -> g_stop r = true ->
+  g_nonnull r = true ->
   yielded_of (t_events (run_ws c rq (f :: r))) = next_data (spec_prefix r).
 Proof.
-  intros A M T S. unfold run_ws. simpl. rewrite (await_ack rq f A), M.
-  pose proof (run_stream_yields rq r T S) as Y. rewrite spec_yields in Y.
+  intros A M T. unfold run_ws. simpl. rewrite (await_ack rq f A), M.
+  pose proof (run_stream_yields rq r T) as Y. rewrite spec_yields in Y.
   destruct (run_from rq Streaming r) as [e q]. simpl in *. exact Y.
 Qed.
 
@@ -531,31 +466,29 @@ Proof.
   unfold run_ws. simpl. rewrite E, run_done. split; reflexivity.
 Qed.
 
-Lemma one_subscribe c rq f r m : is_ack f = true -> g_vars rq = true -> subscribe_ref rq = Some m ->
+Lemma one_subscribe c rq f r m : is_ack f = true -> subscribe_msg rq = Some m ->
   sent_of (t_events (run_ws c rq (f :: r))) =
     init_msg c :: m :: repeat pong_msg (count_pings (spec_prefix r)).
-Proof.
-  intros A G R. rewrite sent_closed_form, A. unfold g_vars in G. rewrite R in G.
-  destruct (subscribe_msg rq) as [m'|] eqn:M; [|discriminate].
-  rewrite (subscribe_msg_ref rq m' M) in R. inversion R. reflexivity.
-Qed.
+Proof. intros A M. rewrite sent_closed_form, A, M. reflexivity. Qed.
 
-Lemma complete_finishes c rq f a x m : is_ack f = true -> subscribe_msg rq = Some m ->
+Lemma complete_finishes c rq f a x b m : is_ack f = true -> subscribe_msg rq = Some m ->
   nonterminal a = true -> skind_of x = SComplete ->
-  t_fin (run_ws c rq (f :: a ++ [x])) = Finished /\
-  closes_of (t_events (run_ws c rq (f :: a ++ [x]))) = 1 /\
-  yielded_of (t_events (run_ws c rq (f :: a ++ [x]))) = filter truthy (next_data a).
+  t_fin (run_ws c rq (f :: a ++ x :: b)) = Finished /\
+  closes_of (t_events (run_ws c rq (f :: a ++ x :: b))) = 1 /\
+  consumed_of (t_events (run_ws c rq (f :: a ++ x :: b))) = S (S (List.length a)) /\
+  yielded_of (t_events (run_ws c rq (f :: a ++ x :: b))) = filter nonnull (next_data a).
 Proof.
-  intros A M N K. destruct (fin_after_prefix c rq f a [x] m A M N) as (F & Y & C).
-  rewrite F, Y, C, (nonterminal_no_close rq a N), (nonterminal_yields rq a N).
-  simpl. pose proof (stream_coarse rq x) as S. rewrite K in S. rewrite S. simpl.
-  rewrite app_nil_r. auto.
+  intros A M N K. destruct (fin_after_prefix c rq f a (x :: b) m A M N) as (F & Y & C & R).
+  rewrite F, Y, C, R, (nonterminal_no_close rq a N), (nonterminal_yields rq a N),
+    (nonterminal_consumed rq a N).
+  simpl. pose proof (stream_coarse rq x) as SC. rewrite K in SC. rewrite SC, run_done. simpl.
+  rewrite app_nil_r. unfold consumed_of. simpl. repeat split; auto; lia.
 Qed.
 
 Lemma error_multi c rq f a x b m l : is_ack f = true -> subscribe_msg rq = Some m ->
   nonterminal a = true -> skind_of x = SError l -> shape_ok x = true ->
   t_fin (run_ws c rq (f :: a ++ x :: b)) = RaisedMulti l (frame_json x) /\
-  yielded_of (t_events (run_ws c rq (f :: a ++ x :: b))) = filter truthy (next_data a).
+  yielded_of (t_events (run_ws c rq (f :: a ++ x :: b))) = filter nonnull (next_data a).
 Proof.
   intros A M N K S. destruct (fin_after_prefix c rq f a (x :: b) m A M N) as (F & Y & _).
   rewrite F, Y, (nonterminal_yields rq a N). simpl.
@@ -565,7 +498,7 @@ Qed.
 Lemma malformed_invalid c rq f a x b m : is_ack f = true -> subscribe_msg rq = Some m ->
   nonterminal a = true -> skind_of x = SMalformed -> shape_ok x = true ->
   t_fin (run_ws c rq (f :: a ++ x :: b)) = RaisedInvalid (Some x) /\
-  yielded_of (t_events (run_ws c rq (f :: a ++ x :: b))) = filter truthy (next_data a).
+  yielded_of (t_events (run_ws c rq (f :: a ++ x :: b))) = filter nonnull (next_data a).
 Proof.
   intros A M N K S. destruct (fin_after_prefix c rq f a (x :: b) m A M N) as (F & Y & _).
   rewrite F, Y, (nonterminal_yields rq a N). simpl.
